@@ -177,7 +177,27 @@ pub fn rand_reading(r: &mut Rng, s: TimeScale, lat: &[i128]) -> i128 {
             let day = r.range_i128(lo / NS_D, hi / NS_D);
             (day * NS_D - greg_zero_ns(s).rem_euclid(NS_D) + r.range_i64(-2000, 2000) as i128).clamp(lo, hi)
         }
-        80..=89 => {
+        80..=84 => {
+            // a "round" time of day: whole second, minute or midnight plus a sub-second that is a whole number of
+            // milliseconds or microseconds, or one digit group of the nine only
+            let day = r.range_i128(lo / NS_D, hi / NS_D) * NS_D - greg_zero_ns(s).rem_euclid(NS_D);
+            let tod = match r.below(4) {
+                0 => 0,
+                1 => r.below(86_400) as i128 * NS_S,
+                2 => r.below(1_440) as i128 * NS_MIN,
+                _ => 86_399 * NS_S,
+            };
+            let sub = match r.below(6) {
+                0 => r.below(1000) as i128 * 1_000_000,
+                1 => r.below(1000) as i128 * 1_000,
+                2 => r.below(1000) as i128,
+                3 => r.below(1_000_000) as i128 * 1_000,
+                4 => (1 + r.below(9) as i128) * 10i128.pow(r.below(9) as u32),
+                _ => r.below(1000) as i128 * 1_000_000 + r.below(1000) as i128,
+            };
+            (day + tod + sub).clamp(lo, hi)
+        }
+        85..=89 => {
             // near a whole second
             let sec = r.range_i128(lo / NS_S, hi / NS_S);
             (sec * NS_S + r.range_i64(-2, 2) as i128).clamp(lo, hi)
